@@ -12,6 +12,7 @@ Inputs added after seeded rounds 3-5: a 66 000-octet run of unknown identifiers 
 import json, os, re, sys
 sys.path.insert(0, os.path.dirname(os.path.abspath(__file__)))
 from codec_common import *
+from codec_common import _enc_slot
 
 META = dict(
     property_id="C01", engine="tlc-codec",
@@ -122,6 +123,65 @@ def run(c):
                     for end in ([0xC0], [0xFF, 0x00]):
                         body = (lab * k + end)[:sl["max"]]
                         add("plain", b0 + [one[0]] + ([len(body)] if sl["lsz"] == 1 else [len(body) >> 8, len(body) & 255]) + body)
+    # contents that look like a small PACKET: code, identifier, big-endian inner length (an EAP packet, a TLV, a nested
+    # header) with code and inner length varied INDEPENDENTLY - inner length 0, below its own header, equal to the header
+    # (an empty packet), around the real length; and contents that are the first 1..4 octets of a nested NAS message (a
+    # header that is cut short) in a message that otherwise carries its full optional set
+    fulls = {}
+    for m, (b0, singles) in sorted(singles_by_message(gen).items()):
+        slot = {}
+        for sl in TBL[m]["slots"]:
+            if not sl["mand"]: slot.setdefault(sl["iei"], sl)
+        byiei = {}
+        for e in singles: byiei.setdefault(e[0] if e[0] < 128 else e[0] // 16, []).append(e)
+        shortest = [min(es, key=len) for _, es in sorted(byiei.items())]
+        fulls[m] = (b0, byiei, shortest)
+        for iei, es in sorted(byiei.items()):
+            sl = slot.get(iei)
+            if sl is None or sl["half"] or sl["lsz"] == 0 or sl["data"] != "buf" or sl["max"] < 8: continue
+            n = min(sl["max"], 12)
+            lf = lambda k: [k] if sl["lsz"] == 1 else [k >> 8, k & 255]
+            for code in ((1, 2, 3, 4) if not thorough else (0, 1, 2, 3, 4, 5, 6, 255)):
+                for il in sorted({0, 1, 3, 4, 5, n - 1, n, n + 1, 0xFFFF}):
+                    body = ([code, 7, il >> 8, il & 255] + [0, 1, 0x2E, 0x7E, 0x41, 0, 0, 0, 0])[:n]
+                    add("plain", b0 + [es[0][0]] + lf(n) + body)
+    NESTED = ([0x2E], [0x2E, 1], [0x2E, 1, 0], [0x2E, 1, 0, 0xC1], [0x7E], [0x7E, 0], [0x7E, 0, 0x41], [0x7E, 2, 0, 0])
+    for t in TABLES:
+        if t["family"] == "ENV" or t["name"] not in fulls: continue
+        b0, byiei, shortest = fulls[t["name"]]
+        hdrn = len(header(t["name"]))
+        mslots = [q for q in t["slots"] if q["mand"]]
+        mv = minimal_value(t["name"])
+        conts = [q for q in t["slots"] if q["lsz"] > 0 and q["data"] == "buf" and q["min"] <= 1 and ("Container" in q["name"] or "EAP" in q["name"] or "Payload" in q["name"])]
+        for q in conts:
+            for inner in NESTED:
+                if len(inner) > q["max"]: continue
+                lf = [len(inner)] if q["lsz"] == 1 else [len(inner) >> 8, len(inner) & 255]
+                if q["mand"]:
+                    out = []
+                    for val, ts in zip(mv["mand"], mslots):
+                        if ts["name"] == q["name"]: out += lf + inner
+                        else: out += _enc_slot(val, ts)
+                    rest = [e for e in shortest]
+                else:
+                    out = list(b0) + [q["iei"]] + lf + inner
+                    rest = [e for e in shortest if e[0] != q["iei"]]
+                # every value of the half octet that precedes / types the container (payload container type), full set behind
+                for hv in ((1, 2, 3, 5, 8, 15) if q["mand"] and hdrn < len(out) else (None,)):
+                    o2 = list(out)
+                    if hv is not None: o2[hdrn] = (o2[hdrn] & 0xF0) | hv
+                    add("plain", o2 + [b for e in rest for b in e])
+                    add("plain", o2)
+    # one small optional element repeated THOUSANDS of times in one message: work and memory stay linear in the input
+    # (k repetitions may cost k times the element; a per-repetition cost that grows with k is quadratic)
+    for m, (b0, byiei, shortest) in sorted(fulls.items()):
+        for e in shortest:
+            if len(e) > 8: continue
+            if thorough or rng.random() < 0.5:
+                add("plain", b0 + e * (7000 // len(e)))
+        if shortest:
+            e = min(shortest, key=len)
+            add("plain", b0 + e * (68000 // len(e)))
     # self-similar inputs: a message nested again and again inside its own container element (must stay linear)
     for t in TABLES:
         if t["family"] == "ENV": continue
